@@ -81,6 +81,9 @@ ASSUMPTIONS = [
     "the differentiated numerator never vanishes at the centre frequency: closed form with Eulerian polynomials, "
     "gammatone_sampled_numerator_closed_form / _ne_zero) - over the reals; for eta >= 5 near 0 or pi the Float evaluation "
     "is dominated by rounding (see the tolerance line below)",
+    "gammatone.sampled with Fraction-spelled parameters (gen_calls): the model is the Float model of the binary values - "
+    "`freq - phase`, `-bandwidth` computed in exact Fractions and converted by cos / exp are the correctly rounded float "
+    "operations (CPython's Fraction.__float__ is correctly rounded), measured bit-identical",
     "the branch `if not denR: denR = 1` of lowpass.z / highpass.z (lazy_filters.py 1407, 1423, the only anchored lines of the "
     "property no case executes) is unreachable with binary floats (no double has cos(x) == 0); it is covered by the theorems "
     "(cut-off pi/2 over the reals), not by the tie; phon2dB (lazy_auditory.py 261-290, listed by the anchor tool) needs scipy and "
@@ -522,8 +525,16 @@ def gen_calls(rng, tier, scale=1):
                 c["phase"] = _f(rng.choice([0.0, 1.0, -0.5, rng.uniform(-PI, PI)]))
                 c["eta"] = rng.randint(1, 6)
             c = _shape(rng, c)
-            if st != "sampled":            # normalised by a measured gain: exact Fractions change the rounding of freq - phase
-                c = _spell_some(rng, c)
+            # sampled too: Fraction(float) is the binary value, so `freq - phase` / `-bandwidth` in exact Fractions and
+            # then float(...) is the correctly rounded float operation - measured bit-identical on 3000 random calls
+            c = _spell_some(rng, c)
+            cases.append(c)
+        # --- gammatone.sampled with Fraction / int spelled parameters, every order
+        for eta in (1, 2, 3, 4, 5, 6):
+            c = {"entry": "gammatone", "strategy": "sampled", "freq": _f(rng.choice([1.0, 2.0, rng.uniform(0.6, 2.5)])),
+                 "bandwidth": _f(rng.choice([1.0, 0.5, rng.uniform(0.05, 1.0)])),
+                 "phase": _f(rng.choice([0.0, 1.0, -0.5, rng.uniform(-PI, PI)])), "eta": eta}
+            c["spell"] = {k: "frac" for k in ("freq", "bandwidth", "phase") if rng.random() < 0.8} or {"freq": "frac"}
             cases.append(c)
         # --- gammatone.sampled: every order with a non-zero phase and with phase 0 (well conditioned centre frequencies)
         for eta in (1, 2, 3, 4, 5, 6):
@@ -653,6 +664,19 @@ def _impl_erbmap(c):
         except Exception as ex:
             o["items"].append({"err": err_kind(ex)})
             break
+    # ... and READING ON: two reads more than there are frequencies, refusals and the end included (a lazy result only;
+    # from a second result of the same call, so that "items" above stays what it was)
+    if cont in ("Stream", "gen"):
+        arg2 = {"Stream": lambda v: al.Stream(v), "gen": lambda v: (x for x in v)}[cont](fs)
+        it2 = iter(fn(arg2, **kw))
+        o["reads"] = []
+        for _ in range(len(fs) + 2):
+            try:
+                o["reads"].append({"v": enc(float(next(it2)))})
+            except StopIteration:
+                o["reads"].append({"stop": True})
+            except Exception as ex:
+                o["reads"].append({"err": err_kind(ex)})
     return o
 
 
@@ -1105,6 +1129,15 @@ def _problems_erbmap(c, io, drv):
         elif not _ulp_close([got["v"]], [w["model"]]):
             bad("elementwise", "item %d (frequency %r): %r, the call on that frequency alone gives %r" % (
                 k, _fl(c["freqs"][k]), _fl(got["v"]), _fl(w["model"])))
+    if "reads" in io:
+        # reading on after a refusal / after the end (Lean erbLazyReads, theorem erb_lazy_reading_on)
+        for k, (got, w) in enumerate(zip(io["reads"], drv["reads"])):
+            same = (got.get("stop") is True and w.get("stop") is True) or \
+                   ("err" in got and got.get("err") == w.get("err")) or \
+                   ("v" in got and "model" in w and _ulp_close([got["v"]], [w["model"]]))
+            if not same:
+                bad("reading-on", "read %d of the lazy result: impl %r, required %r" % (k, got, w))
+                break
     return out
 
 
